@@ -262,8 +262,8 @@ CONFIG["C09"] = dict(
     rule="every exported function called under recover on the boundary grammar: byte slices {nil, empty, 1 byte, exact-1, exact (random/zeros/ones), exact+1, 64 KiB}, enum values {-1,0,1,2,3,4,100,2^30}, integers {-2^40,-1,0,1,3,4,254,255,256,2^40}, "
          "list shapes {nil, empty, one, nil element, mixed key types, many}, mismatched list lengths, hashers {nil, right size, wrong sizes}; threshold inspector call chains with every index/share shape; "
          "DKG: random sequences of Start/NextTimeout/End/ForceDisqualify/messages with arbitrary tags, payloads and origins at arbitrary phases (each also replayed by the state-machine model); hash and PRG constructors; outcome must be a typed error / verdict, never a panic",
-    trusted_base=BLS_TB, technique="Lean 4 proof (coverage of every &x[0] site extracted from the code; guards imply the lengths and index ranges the sites need) + boundary-grammar run under recover",
-    level_text="Theorems: every pointer-to-first-element site of the current code is in the justified table and vice versa (decided against the regenerated site list); the extracted guards imply exact lengths (48/32/96), non-empty lists with matching lengths, valid indices, DKG sizes fitting a byte. "
+    trusted_base=BLS_TB, technique="Lean 4 proof (coverage of every &x[0] site and exactness of the list of every run-time-checked index / slice expression, both regenerated from the code; guards imply the lengths and index ranges the sites need) + boundary-grammar run under recover",
+    level_text="Theorems: every pointer-to-first-element site of the current code is in the justified table and vice versa (decided against the regenerated site list); the extracted guards imply exact lengths (48/32/96), non-empty lists with matching lengths, valid indices, DKG sizes fitting a byte; index_sites_exact: the list of every index / slice expression of the three packages whose bound can fail at run time (maps, constant bounds on arrays and the &x[0] hand-overs apart; 129 sites) regenerated on this run is the list reviewed at the pinned commit - a new or edited index expression breaks the lemma and sends the check into its boundary search. "
                "Memory safety inside BLST and the Go runtime, and C reads past a Go-owned buffer that do not crash, are outside what the run can observe (partial); ASan was tried and cannot see past Go-heap buffers.",
     level_note="partial: BLST internals and the Go runtime are not modelled; a hash.Hasher lying about Size() is a program, not an input",
     assumptions=["documented exceptions excluded: UintN(0), nil interface/callback arguments, sizes whose documented cost is linear memory, no-cgo builds"],
